@@ -218,7 +218,7 @@ GRID = {"h_lru": _grid}
 
 def jobs(tier):
     q = tier == "quick"
-    T = 200 if q else 900
+    T = 400 if q else 900
     J = []
 
     def add(**part):
